@@ -1,4 +1,8 @@
 import Driver.Monitors
+import Driver.SimRun
+import Driver.CodecRun
+import Driver.ValRun
+import Driver.FfiRun
 
 open Driver Mb
 
@@ -40,4 +44,8 @@ def main (args : List String) : IO UInt32 := do
   if bad > 0 then IO.println s!"badblocks {bad}"
   match args with
   | ["fw"] => runFw cases; return 0
+  | "sim" :: rest => SimRun.run cases rest; return 0
+  | "codec" :: rest => CodecRun.run cases rest; return 0
+  | "val" :: rest => ValRun.run cases rest; return 0
+  | "ffi" :: rest => FfiRun.run cases rest; return 0
   | _ => IO.eprintln "usage: mbdriver fw < cases"; return 2
